@@ -3,10 +3,16 @@
   Property theorems only. Model: GeoModel/Prepared.lean.
 -/
 import GeoModel.Prepared
+import GeoModel.GeomGraph
 import GeoProofs.Props.C11
+import GeoProofs.Lemmas.C17Graph
+import GeoProofs.Lemmas.C05Winding
 
 namespace Geo.Proofs.C17
-open Geo Geo.Prep
+open Geo
+
+section Abstract
+open Geo.Prep
 
 /-- [T] swapping the two label slots is an involution. -/
 theorem label_swap_invol (l : Label) : l.swap.swap = l := by cases l; rfl
@@ -64,5 +70,236 @@ theorem candidates_complete (s t : Pt × Pt)
   cases hb : rectRect (lineBBox s.1 s.2).1 (lineBBox s.1 s.2).2 (lineBBox t.1 t.2).1 (lineBBox t.1 t.2).2 with
   | true => rfl
   | false => exact absurd (Geo.Proofs.C11.li_none_of_bbox_disjoint s.1 s.2 t.1 t.2 hb) h
+
+end Abstract
+
+/-! ## The concrete graph (`GeoModel/GeomGraph.lean`)
+
+`buildGraph idx g` is `GeometryGraph::new(idx, g)` as the code builds it (checked against the real
+code on every run through the `verif::graph_dump` hook, op `C17.graph`). -/
+
+section Concrete
+open Geo.GG Geo.Proofs.C17L Geo.Proofs.C05L
+
+/-- [T] `Label::swap_args` is an involution. -/
+theorem graph_label_swap_invol (l : GG.Label) : l.swap.swap = l := label_swap_swap l
+
+/-- [T] `PlanarGraph::swap_labels` is an involution on the concrete graph. -/
+theorem graph_swapLabels_invol (G : GG.Graph) : G.swapLabels.swapLabels = G := by
+  cases G with
+  | mk nodes edges rule =>
+    simp only [GG.Graph.swapLabels, List.map_map]
+    have hn : (Node.swap ∘ Node.swap) = id := by
+      funext n; cases n; simp [Node.swap, label_swap_swap]
+    have he : (Edge.swap ∘ Edge.swap) = id := by
+      funext e; cases e; simp [Edge.swap, label_swap_swap]
+    rw [hn, he]; simp
+
+/-- [T] every step of graph construction for argument index 0, followed by `swap_labels`, is the
+same step for argument index 1 on the swapped graph — for every geometry (mutual structural
+induction over collections) and *every* starting graph. -/
+theorem swap_addGeometry_any (g : Geom) (G : GG.Graph) :
+    (addGeometry 0 g G).swapLabels = addGeometry 1 g G.swapLabels := swap_addGeometry g G
+
+/-- [T] **the cached graph with its labels swapped is the graph built for argument index 1**:
+`GeometryGraph::new(0, g)` after `swap_labels` equals `GeometryGraph::new(1, g)`, for every
+geometry of every type — edges (coordinates, on/left/right positions), nodes (coordinates, positions)
+and the boundary-determination-rule flag. -/
+theorem swap_buildGraph (g : Geom) : (buildGraph 0 g).swapLabels = buildGraph 1 g := by
+  unfold buildGraph
+  rw [swap_addGeometry g Graph.empty, swap_empty]
+
+/-- [T] and back: the graph for index 1 swapped is the graph for index 0. -/
+theorem swap_buildGraph_back (g : Geom) : (buildGraph 1 g).swapLabels = buildGraph 0 g := by
+  rw [← swap_buildGraph, graph_swapLabels_invol]
+
+/-- [T] `clone_for_arg_index` of the (un-noded) cache equals the freshly built graph for both
+operand positions. -/
+theorem cloneForArg_buildGraph (g : Geom) (idx : Nat) (h : idx = 0 ∨ idx = 1) :
+    GG.cloneForArg (buildGraph 0 g) idx = buildGraph idx g := by
+  rcases h with rfl | rfl
+  · rfl
+  · simpa [GG.cloneForArg] using swap_buildGraph g
+
+/-- [T] the node-insertion step of self-noding commutes with the label swap, whatever
+intersection coordinates were recorded on the edges: `add_self_intersection_nodes` never looks at
+the slot index except to read and write that slot. -/
+theorem swap_selfNodes (g : Geom) (ixs : List (List Pt)) :
+    (addSelfIntersectionNodes 0 ixs (buildGraph 0 g)).swapLabels =
+      addSelfIntersectionNodes 1 ixs (buildGraph 1 g) := by
+  unfold addSelfIntersectionNodes
+  rw [swap_addSelfIntersectionItems, swap_buildGraph]
+  have he : (buildGraph 1 g).edges = (buildGraph 0 g).edges.map Edge.swap := by
+    rw [← swap_buildGraph]; rfl
+  have key : ((buildGraph 0 g).edges.zip ixs).map (fun (x : GG.Edge × List Pt) => (x.1.label.onPos 0, x.2)) =
+      ((buildGraph 1 g).edges.zip ixs).map (fun (x : GG.Edge × List Pt) => (x.1.label.onPos 1, x.2)) := by
+    rw [he]; exact (items_swap ixs _).symm
+  exact congrArg (fun it => addSelfIntersectionItems 1 it (buildGraph 1 g)) key
+
+/-- [T] `clone_for_arg_index` of the *self-noded* cache equals the freshly built and self-noded
+graph, for both operand positions (given the same recorded intersections — they are computed from
+the edge coordinates alone, which the swap does not touch). -/
+theorem cloneForArg_noded_eq_fresh (g : Geom) (ixs : List (List Pt)) (idx : Nat) (h : idx = 0 ∨ idx = 1) :
+    GG.cloneForArg (addSelfIntersectionNodes 0 ixs (buildGraph 0 g)) idx =
+      addSelfIntersectionNodes idx ixs (buildGraph idx g) := by
+  rcases h with rfl | rfl
+  · rfl
+  · simpa [GG.cloneForArg] using swap_selfNodes g ixs
+
+example : (buildGraph 0 (.collection [.lineString [⟨0, 0⟩, ⟨1, 0⟩, ⟨1, 0⟩, ⟨2, 2⟩],
+      .polygon ⟨[⟨0, 0⟩, ⟨0, 4⟩, ⟨4, 4⟩, ⟨0, 0⟩], []⟩])).swapLabels =
+    buildGraph 1 (.collection [.lineString [⟨0, 0⟩, ⟨1, 0⟩, ⟨1, 0⟩, ⟨2, 2⟩],
+      .polygon ⟨[⟨0, 0⟩, ⟨0, 4⟩, ⟨4, 4⟩, ⟨0, 0⟩], []⟩]) := swap_buildGraph _
+
+/-- [T] the graph built for argument index `idx` never writes the other slot: every edge label is
+`Label::new(idx, ·)`-shaped. (Stated for the swap: slot contents move, nothing is lost.) -/
+theorem swap_edges_coords (g : Geom) :
+    (buildGraph 1 g).edges.map (·.coords) = (buildGraph 0 g).edges.map (·.coords) := by
+  rw [← swap_buildGraph]
+  show ((buildGraph 0 g).edges.map Edge.swap).map (·.coords) = _
+  rw [List.map_map]
+  rfl
+
+/-- [T] building for argument index 0 writes slot 0 only: in `GeometryGraph::new(0, g)` the slot
+of the other operand is unset on every node and every edge (and by `swap_buildGraph` slot 0 is
+unset throughout `GeometryGraph::new(1, g)`). -/
+theorem buildGraph_other_slot_unset (g : Geom) :
+    (∀ n ∈ (buildGraph 0 g).nodes, n.label.b = .emptyLine ∨ n.label.b = .emptyArea) ∧
+    (∀ e ∈ (buildGraph 0 g).edges, e.label.b = .emptyLine ∨ e.label.b = .emptyArea) :=
+  inv_addGeometry g Graph.empty inv_empty
+
+/-- [T] the node map's iteration order (lexicographic by coordinate) does not depend on labels, so
+the swapped graph lists its nodes in the same order: the dumps of `clone_for_arg_index(1)` and of a
+fresh graph for index 1 agree position by position. -/
+theorem sortNodes_swapLabels (g : Geom) :
+    sortNodes (buildGraph 1 g).nodes = (sortNodes (buildGraph 0 g).nodes).map Node.swap := by
+  rw [← swap_buildGraph]
+  exact sortNodes_swap _
+
+/-! ### the mod-2 boundary rule (`insert_boundary_point` / `determine_boundary`) -/
+
+/-- [T] **mod-2 rule.** In the graph of a `MultiLineString`, a point that no member collapses to
+is a node iff it is an end point of some member, and it is labelled `OnBoundary` iff it is an end
+point of an odd number of members (a closed member counts twice), `Inside` otherwise. -/
+theorem mod2_rule (idx : Nat) (ls : List (List Pt)) (p : Pt)
+    (h : ∀ l ∈ ls, GG.collapsesTo p l = false) :
+    (buildGraph idx (.multiLineString ls)).nodeOn idx p =
+      if GG.endpointCount p ls = 0 then none
+      else if GG.endpointCount p ls % 2 = 1 then some .onBoundary else some .inside := by
+  unfold buildGraph
+  rw [addGeometry_multiLineString, nodeOn_addLineStrings idx ls p _ h, nodeOn_empty, toggleN_none]
+
+/-- [T] the rule as an equivalence: `OnBoundary` iff an odd number of end points. -/
+theorem boundary_iff_odd (idx : Nat) (ls : List (List Pt)) (p : Pt)
+    (h : ∀ l ∈ ls, GG.collapsesTo p l = false) :
+    (buildGraph idx (.multiLineString ls)).nodeOn idx p = some .onBoundary ↔ GG.endpointCount p ls % 2 = 1 := by
+  rw [mod2_rule idx ls p h]
+  by_cases h0 : GG.endpointCount p ls = 0
+  · simp [h0]
+  · by_cases h1 : GG.endpointCount p ls % 2 = 1 <;> simp [h0, h1]
+
+/-- [T] the code as it is, for members that collapse to a single point ("Treating invalid
+linestring as point"): such a member *resets* the node to `Inside`, and counting starts afresh with
+the members after it. Together with `mod2_rule` this covers every list of members (split it at the
+last member collapsing to `p`). -/
+theorem mod2_rule_after_collapsed (idx : Nat) (pre post : List (List Pt)) (d : List Pt) (p : Pt)
+    (hd : GG.collapsesTo p d = true) (h : ∀ l ∈ post, GG.collapsesTo p l = false) :
+    (buildGraph idx (.multiLineString (pre ++ d :: post))).nodeOn idx p =
+      if GG.endpointCount p post % 2 = 1 then some .onBoundary else some .inside := by
+  unfold buildGraph
+  rw [addGeometry_multiLineString, addLineStrings_append]
+  simp only [addLineStrings]
+  rw [nodeOn_addLineStrings idx post p _ h, nodeOn_addLineString_collapsed idx d p _ hd]
+  exact (toggleN_some _).1
+
+example : (buildGraph 0 (.multiLineString [[⟨0, 0⟩, ⟨1, 0⟩], [⟨1, 0⟩, ⟨1, 1⟩], [⟨1, 0⟩, ⟨2, 0⟩, ⟨2, 0⟩]])).nodeOn 0 ⟨1, 0⟩ =
+    some .onBoundary := by
+  rw [boundary_iff_odd]
+  · decide
+  · intro l hl
+    simp only [List.mem_cons, List.not_mem_nil, or_false] at hl
+    rcases hl with rfl | rfl | rfl <;> decide
+
+/-- [T] a single `LineString` is the one-member case: an open one has both ends on the boundary,
+a closed one has none (its end point is `Inside`). -/
+theorem lineString_ends (idx : Nat) (cs : List Pt) (p : Pt) (h : GG.collapsesTo p cs = false) :
+    (buildGraph idx (.lineString cs)).nodeOn idx p =
+      if GG.endpointCount1 p cs = 0 then none
+      else if GG.endpointCount1 p cs % 2 = 1 then some .onBoundary else some .inside := by
+  have e : buildGraph idx (.lineString cs) = addLineString idx cs Graph.empty := by
+    unfold buildGraph; simp only [addGeometry]
+    split
+    · rename_i hc
+      have : cs = [] := by simpa using hc
+      subst this; rfl
+    · rfl
+  rw [e, nodeOn_addLineString idx cs p _ h, nodeOn_empty, toggleN_none]
+
+/-! ### polygon rings: the labelling does not depend on the ring's direction -/
+
+/-- left and right exchanged, the edge traversed backwards: the same labelled curve -/
+def reverseEdge (e : GG.Edge) : GG.Edge := ⟨e.coords.reverse, e.label.flip⟩
+
+/-- core of the direction theorem, over what `winding_order` answers for the reversed ring -/
+private theorem ringEdge_reverse_of_winding (idx : Nat) (ring : List Pt) (l r : Pos)
+    (hw : windingOrder ring.reverse = (windingOrder ring).map WO.flip)
+    (hs : windingOrder ring ≠ none) :
+    GG.ringEdge idx ring.reverse l r = reverseEdge (GG.ringEdge idx ring l r) := by
+  unfold GG.ringEdge ringSides reverseEdge
+  rw [hw, dedup_reverse]
+  cases hwo : windingOrder ring with
+  | none => exact absurd hwo hs
+  | some w =>
+    cases w <;>
+      (by_cases h0 : idx = 0 <;>
+        simp [WO.flip, Label.new, Label.flip, Label.set, Label.emptyArea, TopoPos.flip, TopoPos.emptyArea, h0])
+
+/-- [Tp] **ring labelling is independent of the ring's direction, up to the left/right swap**:
+the edge `add_polygon_ring` inserts for the reversed ring is the reversed edge with left and right
+exchanged — i.e. the same side of the curve is labelled interior whichever way the ring is
+written. Full statement (every ring with a winding order) is false for pinched rings, where
+`winding_order` itself does not flip under reversal (C05, `PivotOnce`); kept for reference:
+  windingOrder ring ≠ none → ringEdge idx ring.reverse l r = reverseEdge (ringEdge idx ring l r) -/
+theorem ring_label_reverse_partial (idx : Nat) (ring : List Pt) (l r : Pos)
+    (h : PivotOnce ring) (hs : windingOrder ring ≠ none) :
+    GG.ringEdge idx ring.reverse l r = reverseEdge (GG.ringEdge idx ring l r) :=
+  ringEdge_reverse_of_winding idx ring l r (windingOrder_reverse' h) hs
+
+example : GG.ringEdge 0 ([⟨1, 0⟩, ⟨2, 2⟩, ⟨0, 1⟩, ⟨1, 0⟩] : List Pt).reverse .outside .inside =
+    reverseEdge (GG.ringEdge 0 [⟨1, 0⟩, ⟨2, 2⟩, ⟨0, 1⟩, ⟨1, 0⟩] .outside .inside) := by decide +kernel
+
+/-- [Tp] a ring without a winding order (degenerate: fewer than three distinct points, or a flat
+pivot) is labelled as if clockwise in *both* directions — the code's "Results are undefined"
+branch: here the labelling does depend on nothing but the given `(cw_left, cw_right)`. -/
+theorem ring_label_degenerate_partial (idx : Nat) (ring : List Pt) (l r : Pos)
+    (h : PivotOnce ring) (hs : windingOrder ring = none) :
+    GG.ringEdge idx ring.reverse l r = ⟨(GG.ringEdge idx ring l r).coords.reverse, (GG.ringEdge idx ring l r).label⟩ := by
+  unfold GG.ringEdge ringSides
+  rw [windingOrder_reverse' h, hs, dedup_reverse]
+  rfl
+
+/-- [T] the node `add_polygon_ring` marks (`OnBoundary` at the ring's first coordinate) is the
+same for a closed ring and its reverse; with `ring_label_reverse_partial`, the graphs of a polygon
+written in either direction differ only in the direction of the edge. -/
+theorem ring_node_reverse (idx : Nat) (ring : List Pt) (l r : Pos) (G : GG.Graph)
+    (hc : ring.head? = ring.getLast?) :
+    (addPolygonRing idx ring.reverse l r G).nodes = (addPolygonRing idx ring l r G).nodes := by
+  unfold addPolygonRing
+  have hh : (dedup ring.reverse).head? = (dedup ring).head? := by
+    rw [dedup_head?, dedup_head?, List.head?_reverse, hc]
+  cases h1 : dedup ring.reverse with
+  | nil =>
+    cases h2 : dedup ring with
+    | nil => rfl
+    | cons b _ => rw [h1, h2] at hh; simp at hh
+  | cons a _ =>
+    cases h2 : dedup ring with
+    | nil => rw [h1, h2] at hh; simp at hh
+    | cons b _ =>
+      rw [h1, h2] at hh
+      have : a = b := by simpa using hh
+      subst this; rfl
+
+end Concrete
 
 end Geo.Proofs.C17
